@@ -229,7 +229,7 @@ func (d *dnsServer) Stop() {
 // return value reports whether the name is known at all (in either A or AAAA),
 // which lets callers distinguish NODATA from NXDOMAIN.
 func (d *dnsServer) Query(q uint16, data string) (netip.Addr, bool) {
-	data = strings.ToLower(data)
+	data = dnsLowerName(data)
 	d.RLock()
 	defer d.RUnlock()
 	addr4, haveV4 := d.dnsMap4[data]
@@ -312,7 +312,7 @@ func (d *dnsServer) seedSelf() {
 	if c == nil {
 		return
 	}
-	newHost := strings.ToLower(c.Name()) + "."
+	newHost := dnsLowerName(c.Name()) + "."
 
 	d.Lock()
 	defer d.Unlock()
@@ -350,7 +350,7 @@ func (d *dnsServer) Add(host string, addresses []netip.Addr) {
 	if !d.enabled.Load() {
 		return
 	}
-	host = strings.ToLower(host)
+	host = dnsLowerName(host)
 	d.Lock()
 	defer d.Unlock()
 	haveV4 := false
@@ -396,6 +396,11 @@ func (d *dnsServer) parseQuery(m *dns.Msg, w dns.ResponseWriter) {
 	// exist at all.
 	anyNameExists := false
 	for _, q := range m.Question {
+		// A name we know exists for every query type, not only for the address types we answer
+		if _, nameExists := d.Query(q.Qtype, q.Name); nameExists {
+			anyNameExists = true
+		}
+
 		switch q.Qtype {
 		case dns.TypeA, dns.TypeAAAA:
 			qType := dns.TypeToString[q.Qtype]
@@ -455,4 +460,16 @@ func getDnsServerAddr(c *config.C) string {
 		dnsHost = "::"
 	}
 	return net.JoinHostPort(dnsHost, strconv.Itoa(c.GetInt("lighthouse.dns.port", 53)))
+}
+
+// dnsLowerName lower cases a name the way DNS compares names: ASCII letters only. Unicode case folding would merge
+// distinct certificate names (the Kelvin sign folds to k) into one record.
+func dnsLowerName(s string) string {
+	b := []byte(s)
+	for i, c := range b {
+		if c >= 'A' && c <= 'Z' {
+			b[i] = c + ('a' - 'A')
+		}
+	}
+	return string(b)
 }
